@@ -733,4 +733,44 @@ example :
   simp only [AdmRun, Adm]
   decide
 
+/-! ## audit round 6: further non-vacuity witnesses (hypotheses of the theorems instantiated on concrete values) -/
+
+private def auAllow : Cfg Bytes := { cxCfg with ignorePats := [], allowPats := [[0x62]] }
+/-- `allow_semantics`: candidates exist, allow_hosts = `b`, no candidate matches → passed through; with Host `b` it is not -/
+example : candidates cxEnv auAllow (exSeg1 ++ exSeg2) [] = .ok [[0x31, 0x3a, 0x38, 0x30], [0x61, 0x3a, 0x38, 0x30]]
+    ∧ ignoreConnection cxEnv auAllow (exSeg1 ++ exSeg2) [] = .ok true
+    ∧ ignoreConnection cxEnv auAllow (exSeg1 ++ [0x62, 0x0d, 0x0a, 0x0d, 0x0a]) [] = .ok false := by decide
+example := allow_semantics cxEnv auAllow (exSeg1 ++ exSeg2) [] [[0x31, 0x3a, 0x38, 0x30], [0x61, 0x3a, 0x38, 0x30]] (by decide)
+  (by decide) (by decide) rfl rfl
+/-- `candidates_cover_destinations` / `ignore_semantics` / `verdict_rule` on the same flight: address and Host header are candidates -/
+example := candidates_cover_destinations cxEnv cxCfg (exSeg1 ++ exSeg2) [] _ [0x31] 80 rfl
+  (by decide : candidates cxEnv cxCfg (exSeg1 ++ exSeg2) [] = .ok [[0x31, 0x3a, 0x38, 0x30], [0x61, 0x3a, 0x38, 0x30]])
+example : hostHeader cxCfg.tcp (exSeg1 ++ exSeg2) [] = .ok (some [0x61]) := by decide
+/-- `decision_seg_independent_total`: its guard holds for the two-segment flight -/
+example := decision_seg_independent_total cxEnv cxCfg [] [exSeg1, exSeg2] rfl (by simp)
+  (by intro p hp
+      have : decidingPrefix (fun d => ignoreConnection cxEnv cxCfg d []) [] [exSeg1, exSeg2] = some (exSeg1 ++ exSeg2) := by decide
+      rw [this] at hp; cases hp; decide)
+/-- `ignored_flight_any_segmentation` and `not_excluded_flight_any_segmentation` instantiated (all hypotheses by evaluation) -/
+example := ignored_flight_any_segmentation cxEnv (cxN false) false [exSeg1, exSeg2] (exSeg1 ++ exSeg2) rfl
+  (by decide) (by decide) (by decide) (by decide)
+private def exSeg2b : Bytes := [0x62, 0x0d, 0x0a, 0x0d, 0x0a]
+example := not_excluded_flight_any_segmentation cxEnv (cxN false) true [exSeg1, exSeg2b] (exSeg1 ++ exSeg2b) rfl
+  (by decide) (by decide) (by decide) (by decide)
+/-- `passthrough_only_if_excluded` / `not_excluded_is_intercepted`: both verdicts occur with a stack -/
+example : nextLayer cxEnv (cxN false) (exSeg1 ++ exSeg2) [] = .ok [LK.tcp true]
+    ∧ ignoreConnection cxEnv (cxN false).toCfg (exSeg1 ++ exSeg2b) [] = .ok false := by decide
+/-- `dtls_decision_prefix_stable` / `dtls_decision_seg_independent`: a DTLS-looking record (here recognisably invalid: size 0)
+    gets a verdict on UDP, spread over two datagrams, and a later datagram does not change it -/
+private def auUdp : Cfg Bytes := { udpCfg with ignorePats := [[0x31]] }
+private def auRec : Bytes := [0x16, 0xfe, 0xfd, 0, 0, 0, 0, 0, 0, 0, 0, 0, 0]
+example : C13.startsLike true auRec = true ∧ ignoreConnection cxEnv auUdp auRec [] = .ok true
+    ∧ ignoreConnection cxEnv auUdp (auRec.take 5) [] = .needMore
+    ∧ decidingPrefix (fun d => ignoreConnection cxEnv auUdp d []) [] [auRec.take 5, auRec.drop 5, [1, 2]] = some auRec := by decide
+example := dtls_decision_seg_independent cxEnv auUdp [] [auRec.take 5, auRec.drop 5, [1, 2]] auRec rfl (by decide) (by decide)
+/-- `verdict_history_independent`: two different option histories ending in the same options -/
+example := verdict_history_independent cxEnv (⟨[], []⟩ : Addon Bytes) ⟨[[0x7a]], []⟩
+  [.setOpts (some [[0x61]]) none] [.setOpts none (some [[0x62]]), .setOpts (some [[0x61]]) (some [])]
+  (cxN false) (exSeg1 ++ exSeg2) [] (by decide) (by decide)
+
 end MitmVerif.Props.C19
